@@ -1,7 +1,9 @@
 package main
 
 import (
+	"fmt"
 	"go/types"
+	"os"
 	"strings"
 
 	"golang.org/x/tools/go/ssa"
@@ -113,22 +115,35 @@ func reg(name string, f func(ex *Exec, st *State, fr *Frame, ins ssa.Instruction
 }
 
 func (ex *Exec) freshErr(hint string, nonNil bool) *IfaceV {
+	if nonNil {
+		// a freshly made error value: non-nil and different from every other error value
+		ex.ifaceN++
+		return &IfaceV{ID: IntC(30000000 + ex.ifaceN), Lib: true}
+	}
 	id := ex.G.FreshInt(hint, types.Typ[types.Int64])
 	if nonNil {
 		ex.G.facts[id.Name] = append(ex.G.facts[id.Name], Gt(id, IntC(0)))
 	} else {
 		ex.G.facts[id.Name] = append(ex.G.facts[id.Name], Ge(id, IntC(0)))
 	}
-	return &IfaceV{ID: id}
+	return &IfaceV{ID: id, Lib: true}
 }
 
 // errIs expands errors.Is over joined errors.
 func (ex *Exec) errIs(e *IfaceV, target *IfaceV, depth int) *Term {
+	if e.Lib && len(e.JoinOf) == 0 && target.ID.IsConstInt() && ex.repoSentinel[target.ID.I.Int64()] {
+		// an error produced by an external library is not (and does not wrap) a sentinel defined in this repository
+		return TFalse
+	}
 	c := And(Neq(e.ID, IntC(0)), Eq(e.ID, target.ID))
 	if depth > 6 {
 		return c
 	}
 	if len(e.JoinOf) > 0 {
+		// errors.Join / fmt.Errorf return a new error value: it is none of the sentinels itself
+		if target.ID.IsConstInt() {
+			c = TFalse
+		}
 		alts := []*Term{c}
 		for _, j := range e.JoinOf {
 			alts = append(alts, ex.errIs(j, target, depth+1))
@@ -208,7 +223,11 @@ func init() {
 		if !ok1 || !ok2 {
 			return Var(ex.G.name("errorsis"), SBool), true
 		}
-		return ex.errIs(e, t, 0), true
+		r := ex.errIs(e, t, 0)
+		if traceCalls && !r.IsConstBool() {
+			fmt.Fprintf(os.Stderr, "errorsIs symbolic: %s\n", r)
+		}
+		return r, true
 	})
 	reg("bytes.Equal", func(ex *Exec, st *State, fr *Frame, ins ssa.Instruction, args []Value) (Value, bool) {
 		a, ok1 := args[0].(*SliceV)
@@ -325,10 +344,7 @@ func init() {
 		reg(n, func(ex *Exec, st *State, fr *Frame, ins ssa.Instruction, args []Value) (Value, bool) {
 			key := "?"
 			if p, ok := args[0].(*PtrV); ok && p.Obj != nil {
-				key = p.Obj.Name
-				for _, pe := range p.Path {
-					key += "." + string(rune('0'+pe.Field))
-				}
+				key = lockKey(p)
 			}
 			switch {
 			case strings.HasSuffix(n, ".Lock"):
@@ -369,4 +385,15 @@ func init() {
 		}
 		return Div(n, IntC(2)), true
 	})
+}
+
+func lockKey(p *PtrV) string {
+	if p == nil || p.Obj == nil {
+		return "?"
+	}
+	key := fmt.Sprintf("%d", p.Obj.ID)
+	for _, pe := range p.Path {
+		key += fmt.Sprintf(".%d", pe.Field)
+	}
+	return key
 }
